@@ -35,6 +35,20 @@ itself, or memory the function freshly allocated on it, counts as `copy` and is 
 theorem lookup_writes_pinned :
     lookupWriteKinds.filter (fun w => w.1 != "copy") = lookupSharedWrites := by decide
 
+/-- **The published table is read-only for everybody.**  The write set above is collected not only from the
+lookup entry points but from every exported method of `Table`, `Route` and `Target` that a file of another
+package of the repository calls (found by name in the files importing package `route`: `main.go` logs
+`t.Dump()` right after `route.SetTable(t)`, the admin API prints `route.GetTable().String()`, the TCP and gRPC
+proxies ask `AccessDeniedTCP` / `AccessDeniedAddr`) — these run concurrently with lookups on the same table.
+Writes are followed through parameters (a slice of shared memory handed to a helper: `promote(rules, i)`) and
+into foreign functions that mutate their argument (`sort.SliceStable(r.Targets, …)`, `copy`, `append` on a shared
+slice).  This discharges, for package `route` and its callers' entry points, the assumption "ring, rules and
+target fields are immutable once the table is published": the scan of the external callers found the lookup
+entry point and all the readers it found are inside the analysed reach. -/
+theorem published_table_readers_analysed :
+    publishedReaders.contains "Table.Lookup" = true ∧
+    publishedReaders.all (fun m => lookupReach.contains m) = true := by decide
+
 /-- `HTTPProxy.ServeHTTP` assigns nothing through the target it was handed; the only `Target` methods it calls
 are on the analysed lookup path; the only other method it calls through the target that is not read-only is the
 response-time metric; the only reference it takes out of the target is the transport it hands the request to. -/
